@@ -347,6 +347,47 @@ def check_balance(case):
     return Outcome(nontrivial=nb > 0, outcome=f"bal{min(nb, 3)}", fails=fails, transitions=n)
 
 
+def check_fix_aam(case):
+    """zero-based map numbers made one-based (FixAAM.fix_aam_rsmi, NormalizeAAM.fit): the reaction must stay the same reaction; also when
+    the fragment carrying map 0 is missing on one side (a by-product that was left out)"""
+    import re
+    from synkit.Chem.Reaction.fix_aam import FixAAM
+    from synkit.Graph.ITS.normalize_aam import NormalizeAAM
+
+    rid, s = case
+    if not er.fully_mapped_bijective(s) or min(er.all_maps(s)) != 1:
+        return Outcome(skipped="not_fully_mapped_from_1")
+    minus1 = lambda t: re.sub(r":(\d+)\]", lambda m: f":{int(m.group(1)) - 1}]", t)
+    fails = []
+    n = 0
+    variants = [("as_is", s)]
+    r, p = er.split(s)
+    for side_name, side, other in (("product", p, r), ("reactant", r, p)):
+        frs = side.split(".")
+        if len(frs) > 1:
+            keep = [f for f in frs if not re.search(r":1\]", f)]
+            if 0 < len(keep) < len(frs):
+                t = (other + ">>" + ".".join(keep)) if side_name == "product" else (".".join(keep) + ">>" + other)
+                variants.append((f"map0_fragment_missing_on_{side_name}_side", t))
+    for tag, t in variants:
+        want = rd_its(t)
+        if want is None:
+            continue
+        for fname, fn in (("FixAAM.fix_aam_rsmi", FixAAM.fix_aam_rsmi), ("NormalizeAAM.fit", lambda x: NormalizeAAM().fit(x))):
+            if fname == "NormalizeAAM.fit" and tag != "as_is":
+                continue  # its centre-based rewrite is only held to balanced input
+            try:
+                out = fn(minus1(t))
+                got = rd_its(out) if out else None
+                ok = got is not None and rd_equiv(got, want) and er.canon_rxn(out) == er.canon_rxn(t)
+            except Exception as e:
+                out, ok = f"{type(e).__name__}: {e}", False
+            n += 1
+            if not ok:
+                fails.append(Fail("fix_aam_changes_reaction", f"{fname} {tag}: {str(out)[:200]}", f"the reaction {t[:200]} with every map number one higher", key_extra=f"{fname},{tag}"))
+    return Outcome(nontrivial=len(variants) > 1, outcome=f"v{len(variants)}", fails=fails, transitions=n)
+
+
 def subchecks(tier, seed):
     TIER[0], SEED[0] = tier, seed
     return [
@@ -354,6 +395,7 @@ def subchecks(tier, seed):
         Sub("canon_rsmi_partial", gen, check_canon_partial, key=lambda c: c[0], rule="an unmapped reagent added to the reactant side (first / last), 6 renumbering variants each"),
         Sub("standardize", gen, check_std, key=lambda c: c[0], rule=RULE[tier]),
         Sub("aam_validator", gen, check_validator, key=lambda c: c[0], rule=RULE[tier]),
+        Sub("fix_aam", gen, check_fix_aam, key=lambda c: c[0], rule="every fully mapped corpus reaction written zero-based (and with the fragment carrying map 0 left out on one side) through FixAAM.fix_aam_rsmi and NormalizeAAM.fit"),
         Sub("balance", gen, check_balance, key=lambda c: c[0], rule=RULE[tier]),
     ]
 
